@@ -193,6 +193,98 @@ func split(bs []byte) string {
 	})
 }
 
+// guarded runs f and turns a panic into the token "panic" (raw.go indexes slices with sizes taken from the input).
+func guarded(f func() string) (out string) {
+	defer func() {
+		if recover() != nil {
+			out = "panic"
+		}
+	}()
+	return f()
+}
+
+// rsplit: Split / SplitString / SplitList with error kinds, for the Go-shaped model of raw.go:
+//   <ok|err> split=<tok> str=<tok> list=<tok>, tok = ok:[<K>:]<content>:<rest> | err:<kind> | panic
+func rsplit(bs []byte) string {
+	t1 := guarded(func() string {
+		k, c, r, err := rlp.Split(bs)
+		if err != nil {
+			return "err:" + errKind(err)
+		}
+		return fmt.Sprintf("ok:%v:%s:%s", k, hx.Hex(c), hx.Hex(r))
+	})
+	t2 := guarded(func() string {
+		c, r, err := rlp.SplitString(bs)
+		if err != nil {
+			return "err:" + errKind(err)
+		}
+		return "ok:" + hx.Hex(c) + ":" + hx.Hex(r)
+	})
+	t3 := guarded(func() string {
+		c, r, err := rlp.SplitList(bs)
+		if err != nil {
+			return "err:" + errKind(err)
+		}
+		return "ok:" + hx.Hex(c) + ":" + hx.Hex(r)
+	})
+	v := "err"
+	if strings.HasPrefix(t1, "ok") {
+		v = "ok"
+	}
+	return v + " split=" + t1 + " str=" + t2 + " list=" + t3
+}
+
+func countValues(bs []byte) string {
+	return guarded(func() string {
+		n, err := rlp.CountValues(bs)
+		if err != nil {
+			return "err " + errKind(err)
+		}
+		return fmt.Sprintf("ok %d", n)
+	})
+}
+
+// be returns the minimal big-endian bytes of v (v > 0).
+func be(v uint64) []byte { return new(big.Int).SetUint64(v).Bytes() }
+
+// sizeLattice: long-form headers (B8..BF, F8..FF) whose size field encodes 2^k-j .. 2^k+j for k = 6..64, j <= 20, with
+// 0..3 bytes of payload following, standalone and nested as the last element of a short list.
+func sizeLattice(each func(bs []byte, nested bool)) {
+	seen := map[uint64]bool{}
+	for k := uint(6); k <= 64; k++ {
+		for j := int64(-20); j <= 20; j++ {
+			var v uint64
+			if k == 64 {
+				if j >= 0 {
+					continue
+				}
+				v = ^uint64(0) - uint64(-j) + 1 // 2^64 - |j|
+			} else {
+				p := uint64(1) << k
+				if j < 0 {
+					v = p - uint64(-j)
+				} else {
+					v = p + uint64(j)
+				}
+			}
+			if v == 0 || seen[v] {
+				continue
+			}
+			seen[v] = true
+			sz := be(v)
+			for _, base := range []byte{0xb7, 0xf7} {
+				for pay := 0; pay <= 3; pay++ {
+					x := append([]byte{base + byte(len(sz))}, sz...)
+					x = append(x, bytes.Repeat([]byte{0x00}, pay)...)
+					each(x, false)
+					inner := append([]byte{0x01}, x...)
+					each(append([]byte{0xc0 + byte(len(inner))}, inner...), true)
+				}
+			}
+		}
+	}
+}
+
 func genItem(r *hx.Rng, depth int) interface{} {
 	if depth <= 0 || r.Intn(3) > 0 {
 		var n int
@@ -263,6 +355,8 @@ func main() {
 			doDec(prefix)
 			if len(prefix) <= 3 {
 				run.Case("split "+hx.Hex(prefix), split(prefix))
+				run.Case("rsplit "+hx.Hex(prefix), rsplit(prefix))
+				run.Case("cv "+hx.Hex(prefix), countValues(prefix))
 			}
 		}
 		if len(prefix) == maxLen {
@@ -294,6 +388,8 @@ func main() {
 		run.Count("enc")
 		doDec(enc)
 		run.Case("split "+hx.Hex(enc), split(enc))
+		run.Case("rsplit "+hx.Hex(enc), rsplit(enc))
+		run.Case("cv "+hx.Hex(enc), countValues(enc))
 		if len(enc) > 0 {
 			for k := 0; k < 4; k++ {
 				m := append([]byte{}, enc...)
@@ -460,6 +556,40 @@ func main() {
 			doPrim(m)
 		}
 	}
+
+	// 3e. size-field lattice through ALL entry points: DecodeBytes and Stream (dec/sdec), Split/SplitString/SplitList
+	//     (split/rsplit), CountValues (cv) — and, for the nested form, the list walk SplitList + CountValues of the content.
+	//     No outcome may be a panic or a hang; the models (readHead over Nat, the Go-shaped raw.go model) must agree.
+	sizeLattice(func(bs []byte, nested bool) {
+		doDec(bs)
+		run.Case("split "+hx.Hex(bs), split(bs))
+		rs, cv := rsplit(bs), countValues(bs)
+		run.Case("rsplit "+hx.Hex(bs), rs)
+		run.Case("cv "+hx.Hex(bs), cv)
+		if strings.Contains(rs, "panic") || strings.Contains(cv, "panic") {
+			run.Violate("panic", "raw-size-field", hx.Hex(bs), "Split/SplitString/SplitList/CountValues panicked on a size-field lattice input: "+rs+" cv="+cv)
+		}
+		run.Count("size-lattice")
+		if nested {
+			content, _, err := func() (c, r []byte, err error) {
+				defer func() {
+					if recover() != nil {
+						err = fmt.Errorf("panic")
+					}
+				}()
+				return rlp.SplitList(bs)
+			}()
+			if err == nil {
+				cv2, rs2 := countValues(content), rsplit(content[1:])
+				run.Case("cv "+hx.Hex(content), cv2)
+				run.Case("rsplit "+hx.Hex(content[1:]), rs2) // the element after 0x01
+				if strings.Contains(rs2, "panic") || strings.Contains(cv2, "panic") {
+					run.Violate("panic", "raw-size-field", hx.Hex(bs), "list walk SplitList+CountValues panicked: cv(content)="+cv2+" "+rs2)
+				}
+				run.Count("size-lattice-walk")
+			}
+		}
+	})
 
 	// 3d. concurrent FIRST use of never-seen types (type cache lock discipline; see concurrent.go). Runs before the typed
 	//     section so that most element types are still unknown to the cache as well.
